@@ -562,6 +562,9 @@ pub fn c20_process_part(ctx: &Ctx, scanned: &AtomicU64) -> Result<u64, String> {
         "00".repeat(32),
         "ff".repeat(32),
         "0102030405060708090a0b0c0d0e0f101112131415161718191a1b1c1d1e1f20".to_string(),
+        // seeds whose hex form has decimal digits only (YAML may type them as numbers)
+        "1234567890123456789012345678901234567890123456789012345678901234".to_string(),
+        "9".repeat(64),
     ];
     let mut runs = 0u64;
     for (si, seed_hex) in seeds.iter().enumerate() {
